@@ -108,7 +108,12 @@ def impl(c):
     rt = [[b, fq(eng.beat_at(eng.time_at(Beat(b, 48))))] for b in bs]
     # beat 0 under the warp tags, both ways: the keys (0, WARP) and (0, WARP_END) precede the initial state's own key
     rt0 = [fq(eng.beat_at(eng.time_at(Beat(0), EventTag(tg)), EventTag.WARP)) for tg in (0, 1)] + [float(eng.time_at(Beat(0), EventTag(tg))) == float(eng.time_at(Beat(0), EventTag.BPM)) for tg in (0, 1)]
-    return {"probes": [[t.hex(), tag] for t, tag in ps], "beats": ans, "beats_redundant": ans2, "roundtrip": rt, "unstable": unstable[:5], "rt0": rt0}
+    # the time at which each warp segment elapses, as the library itself reports it (any offset, any family), asked back under both tags
+    wrt = []
+    for a, e in warp_union(c["td"]):
+        T = eng.time_at(Beat(a.numerator, a.denominator), EventTag.WARP)
+        wrt.append([fq(a), fq(e), fq(eng.beat_at(T, EventTag.WARP)), fq(eng.beat_at(T))])
+    return {"probes": [[t.hex(), tag] for t, tag in ps], "beats": ans, "beats_redundant": ans2, "roundtrip": rt, "unstable": unstable[:5], "rt0": rt0, "warp_rt": wrt}
 
 
 def warp_union(td):
@@ -207,12 +212,19 @@ def oracle(c, o):
                     return "time %r lies strictly inside the pause on beat %s but beat_at gives %s" % (t, pb, b)
     segs = warp_union(td)
     pause_beats = sorted(pauses)
+    # a tick-aligned beat that no warp skips over comes back from its own time (the library's own float, whatever the offset)
+    for b48, back in o.get("roundtrip", []):
+        b = Fraction(b48, 48)
+        if not any(a <= b < e for a, e in segs) and Fraction(*back) != b:
+            return "beat %s -> time_at -> beat_at gives %s" % (b, Fraction(*back))
+    for a, e, gw, gd in o.get("warp_rt", []):
+        a, e, gw, gd = Fraction(*a), Fraction(*e), Fraction(*gw), Fraction(*gd)
+        far = min([pb for pb in pause_beats if a <= pb <= e] + [e])
+        if gw != a:
+            return "at the time the warp segment [%s, %s) elapses (time_at of its start under the WARP tag) beat_at(.., WARP) = %s, not its start" % (a, e, gw)
+        if gd != far:
+            return "at the time the warp segment [%s, %s) elapses beat_at(..) = %s; the furthest beat reached at that time is %s" % (a, e, gd, far)
     if dy:
-        # a tick-aligned beat that no warp skips over comes back from its own time
-        for b48, back in o.get("roundtrip", []):
-            b = Fraction(b48, 48)
-            if not any(a <= b < e for a, e in segs) and Fraction(*back) != b:
-                return "beat %s -> time_at -> beat_at gives %s" % (b, Fraction(*back))
         # at the time at which a whole warp segment elapses: WARP tag -> its start, default -> the furthest beat reached at that time
         for a, e in segs:
             T = GT.spec_time(td, a, 0)
